@@ -142,6 +142,7 @@ class dtype(object):
 float32 = dtype("float32", eps=2.0 ** -23)
 float64 = dtype("float64", eps=2.0 ** -52)
 float16 = dtype("float16", eps=2.0 ** -10)
+bfloat16 = dtype("bfloat16", eps=2.0 ** -7)
 complex64 = dtype("complex64", True, False, eps=2.0 ** -23)
 complex128 = dtype("complex128", True, False, eps=2.0 ** -52)
 int64 = dtype("int64", False, False)
